@@ -154,7 +154,7 @@ def op_sb2_config(o: dict) -> dict:
     """SB2.1 built the way `nxpimage sb21 export` does (BD file -> parse_sb21_config -> load_from_config)."""
     from spsdk.sbfile.sb2.images import BootImageV21
 
-    ws = os.path.join(WORKDIR, "sb2cfg")
+    ws = os.path.join(WORKDIR, "sb2cfg" + FORK_TAG)
     os.makedirs(ws, exist_ok=True)
     bd = os.path.join(ws, "app.bd")
     if not os.path.exists(bd):
